@@ -178,6 +178,8 @@ class Distribution(Density, ABC):
             # Evaluate the log density of the conditioned distribution
             # We use _main_parameter to avoid extracting the name if not necessary
             if "_main_parameter" in kwargs:
+                if len(kwargs) > len(cond_vars) + 1:
+                    raise ValueError(f"{self.logd.__qualname__}: Main parameter passed as both argument and keyword argument, or unknown keyword arguments given.")
                 return new_dist.logd(kwargs["_main_parameter"])
             else:
                 main_params = {key: kwargs[key] for key in kwargs if key not in cond_vars}
